@@ -195,6 +195,36 @@ Definition events_ok_tolerant (tolF9 tolF11 : bool) (L : ledger) (o : cop) (seen
       | _, _ => false
       end).
 
+(* ---- what the listings determine in the two underlying registries (Properties/C16.v,
+   C16_registries_determined_by_listings) *)
+(* no two elements are == *)
+Fixpoint nodupeq (l : list value) : Prop :=
+  match l with [] => True | x :: l' => (forall y, In y l' -> v_eq x y = false) /\ nodupeq l' end.
+
+(* utilities.register((), provided, name, component), one per listed utility *)
+Definition util_regs (l : list regrec) : list (akey * value) :=
+  flat_map (fun r => match r with RU p n c _ _ => [(([], p, n), c)] | _ => [] end) l.
+(* "a utility ==-equal to c is listed under provided p" *)
+Definition util_has (l : list regrec) (p : spec) (c : value) : bool :=
+  existsb (fun r => match r with RU p' _ c' _ _ => Nat.eqb p' p && v_eq c' c | _ => false end) l.
+(* adapters.register(required, provided, name, factory), one per listed adapter *)
+Definition adapter_regs (l : list regrec) : list (akey * value) :=
+  flat_map (fun r => match r with RA q p n f _ => [((q, p, n), f)] | _ => [] end) l.
+(* adapters.subscribe(required, provided-or-None, factory): the factories listed under one key,
+   in listing order, with multiplicity *)
+Definition sub_facs (l : list regrec) (q : list spec) (p : option spec) : list value :=
+  flat_map (fun r => match r, p with
+                     | RS q' p' (Some f) _, Some p0 => if lspec_eqb q' q && Nat.eqb p' p0 then [f] else []
+                     | RH q' (Some f) _, None => if lspec_eqb q' q then [f] else []
+                     | _, _ => []
+                     end) l.
+
+Definition is_unregister (o : cop) : bool :=
+  match o with
+  | UnregUtility _ _ _ | UnregAdapter _ _ _ _ | UnregSub _ _ _ _ | UnregHandler _ _ _ => true
+  | _ => false
+  end.
+
 (* ---- query oracles: what each query method may answer, from the ledger alone.
    "applicable" = every required spec is in the resolution order of what the object provides and
    the registration's provided extends the one asked for; "best" = lexicographically least
